@@ -255,7 +255,8 @@ func (a *aliases) occurs(m string, after token.Pos, loop ast.Node) (found bool) 
 
 // checkMutation: may `st` mutate what path p refers to, under value semantics?
 func (a *aliases) checkMutation(g *gen, st ast.Node, p, what string) {
-	if a.params[root(p)] {
+	// (a threaded receiver is handed back to the caller, who passed it by value: see main.go)
+	if a.params[root(p)] && root(p) != g.recv {
 		g.fail(st, "%s on %s writes memory owned by the caller", what, p)
 	}
 	if a.parent[p] == "" {
@@ -270,7 +271,7 @@ func (a *aliases) checkMutation(g *gen, st ast.Node, p, what string) {
 		if a.find(m) != a.find(p) {
 			continue
 		}
-		if a.params[root(m)] {
+		if a.params[root(m)] && root(m) != g.recv {
 			g.fail(st, "%s on %s, which may share memory with parameter %s", what, p, m)
 		}
 		for _, r := range a.rangeExprs {
@@ -298,7 +299,7 @@ func (a *aliases) checkElemStore(g *gen, st *ast.AssignStmt, e *ast.IndexExpr) {
 }
 
 func (a *aliases) checkFieldStore(g *gen, st *ast.AssignStmt, name string) {
-	if b, _ := g.lookup(name); strings.HasPrefix(b.typ, "*") && (!a.owned[name] || a.params[name]) {
+	if b, _ := g.lookup(name); strings.HasPrefix(b.typ, "*") && (!a.owned[name] || a.params[name]) && name != g.recv {
 		g.fail(st, "store through pointer %s, which is a parameter or is copied somewhere", name)
 	}
 }
